@@ -47,8 +47,11 @@ func (e *Exec) smtTextW(o *Obligation, withModel bool, weak bool) string {
 		b.WriteString(d)
 		b.WriteByte('\n')
 	}
-	for _, a := range e.assumes[:o.NAssume] {
+	for i, a := range e.assumes[:o.NAssume] {
 		if weak && isQuantified(a.S) {
+			continue
+		}
+		if !e.relevant(e.assumeBlock[i], o.Block) {
 			continue
 		}
 		b.WriteString("(assert " + a.S + ")\n")
@@ -142,7 +145,7 @@ func solveOne(e *Exec, o *Obligation, workDir string, timeoutS int) {
 	// stage 1: quantifier-free weakening (drops quantified assumptions); unsat here is final
 	wfile := strings.TrimSuffix(file, ".smt2") + ".weak.smt2"
 	os.WriteFile(wfile, []byte(e.smtTextW(o, true, true)), 0o644)
-	wst, wout, wdur := runSolver(solvers[0], wfile, 5)
+	wst, wout, wdur := runSolver(solvers[0], wfile, 1)
 	total += wdur
 	if wst == "unsat" {
 		o.Status, o.Solver, o.TimeS, o.SMTPath = "unsat", solvers[0].Name+"(qf)", total, wfile
